@@ -2,7 +2,8 @@
 # usage: confirm_seed.sh <worktree> <seeddir> <demo package dir (relative)>
 # Confirms a seeded change: builds, existing tests pass with it, demo fails with it, demo passes without it.
 export GOFLAGS=-mod=mod GOPROXY=off GOSUMDB=off GOTOOLCHAIN=local
-WT=$1; SD=$2; PKG=$3
+WT=$(readlink -f "$1"); SD=$(readlink -f "$2"); PKG=$3
+case "$SD" in "$WT"/*) echo "seed directory must be OUTSIDE the worktree (git clean would delete it)"; exit 2;; esac
 cd "$WT" || exit 2
 git checkout -q -- . ; git clean -fdq
 git apply "$SD/patch.diff" || { echo "PATCH DOES NOT APPLY"; exit 2; }
